@@ -7,8 +7,10 @@
 // Overlays on that space (streams of their own): the provider of a relying-party route may publish another issuer than the
 // configured one (the verifier, if one is handed out, is judged by the configured issuer); a registered member of the payload
 // may carry a value of the wrong JSON type, at a chosen position among the members (soundness is judged on the literal
-// payload, completeness is grey). Part C (keyset.go): histories over one verifier with remote keys - failed downloads,
-// rotation, cancelled callers - judged step by step with the same predicate.
+// payload, completeness is grey); a custom discovery URL may be an opaque path, the issuer's own well-known location, or a
+// well-known location under another origin / path whose document names that location as its issuer. Part C (keyset.go):
+// histories over one verifier with remote keys - failed downloads and outages, up to three rotations under four key-ID
+// policies, cancelled callers, phases of overlapping calls with a held download - judged call by call with the same predicate.
 package main
 
 import (
@@ -126,6 +128,7 @@ const (
 	streamProvider = 5
 	streamMistype  = 6
 	streamKeySet   = 7
+	streamDisc     = 8
 	gridStride     = 7919 // prime, coprime to the grid size (checked at start)
 )
 
@@ -192,6 +195,7 @@ func generate(run *ev.Run, i int, grid []gridCell) (*cfg, *vec, int) {
 	v.Class = class
 	// overlays drawn from streams of their own (the vectors of the other dimensions stay what they were without them)
 	overlayProvider(run.CaseRand(streamProvider, i), c, v)
+	overlayDiscovery(run.CaseRand(streamDisc, i), c, v)
 	if class == "valid2" && v.Fold == "" {
 		overlayMistype(run.CaseRand(streamMistype, i), c, v)
 	}
@@ -218,6 +222,25 @@ func overlayProvider(r *rand.Rand, c *cfg, v *vec) {
 		v.Iss = "published"
 	case 1:
 		v.Iss = "equal"
+	}
+}
+
+// overlayDiscovery: where a custom discovery URL points (a stream of its own). Under a well-known location that is not the
+// issuer's, every second provider names the location it is served from as its issuer - the document is then consistent
+// with where it was found, and with nothing the relying party was configured with.
+func overlayDiscovery(r *rand.Rand, c *cfg, v *vec) {
+	if !c.DiscURL {
+		return
+	}
+	c.DiscKind = pick(r, discOpaque, discOpaque, discForeignOrigin, discForeignOrigin, discOtherPath, discOfIssuer)
+	if (c.DiscKind == discForeignOrigin || c.DiscKind == discOtherPath) && r.IntN(2) == 0 {
+		c.Published = pubDiscoveryURLSelf
+		switch r.IntN(3) {
+		case 0:
+			v.Iss = "published"
+		case 1:
+			v.Iss = "equal"
+		}
 	}
 }
 
@@ -307,6 +330,10 @@ func runCase(run *ev.Run, i int, grid []gridCell, verbose bool) int {
 			run.Eval()
 			run.Count("relying_party_vs_provider_publishing_another_issuer", c.Published+" -> refused:"+errClass(berr))
 			run.Observed("provider-publishing-another-issuer")
+			if c.Published == pubDiscoveryURLSelf {
+				run.Count("provider_naming_its_custom_discovery_location", c.DiscKind+" -> refused")
+				run.Observed("provider-naming-its-custom-discovery-location:" + c.DiscKind)
+			}
 			run.Distinct(v.key(c))
 			if verbose {
 				fmt.Printf("REPLAY case %d: rp.NewRelyingPartyOIDC refused the provider: %v\n", i, berr)
@@ -319,6 +346,10 @@ func runCase(run *ev.Run, i int, grid []gridCell, verbose bool) int {
 		if c.mismatchingProvider() {
 			run.Count("relying_party_vs_provider_publishing_another_issuer", c.Published+" -> built")
 			run.Observed("provider-publishing-another-issuer")
+			if c.Published == pubDiscoveryURLSelf {
+				run.Count("provider_naming_its_custom_discovery_location", c.DiscKind+" -> built")
+				run.Observed("provider-naming-its-custom-discovery-location:" + c.DiscKind)
+			}
 		}
 		res = call(tc, ctx, verifier)
 	}
@@ -467,6 +498,8 @@ func judge(run *ev.Run, idx int64, tc *tokenCase, res result, extraGrey []string
 		}
 		if c.DiscURL {
 			run.Observed("accept:custom-discovery-url")
+			run.Observed("accept:custom-discovery-url:" + c.DiscKind)
+			run.Count("must_accept_by_custom_discovery_url", c.DiscKind)
 		}
 		if c.mismatchingProvider() {
 			run.Observed("accept:token-naming-the-configured-issuer-not-the-published-one")
@@ -544,7 +577,9 @@ func main() {
 		"iss/sub/aud/azp/exp/iat/auth_time/nonce/acr/at_hash/access token/alg/entry point/wrongly typed member and its position), " +
 		"signed by the harness and verified by rp.VerifyIDToken / rp.VerifyTokens between two clock readings; a case is non-trivial when the reference " +
 		"gave the same zone at both readings; distinct = distinct (entry, alg, configuration kind, variant of every token dimension) vectors; " +
-		"part C: one evaluation = one step of a history over one verifier with remote keys (faulty downloads, rotation, cancelled callers)")
+		"part C: one evaluation = one call of a history over one verifier with remote keys: phases of one call or of 2-4 overlapping calls held at the first " +
+		"download (arrival order, who is parked, whose context is cancelled while parked are forced through the endpoint's gate, the callers' contexts and " +
+		"goroutine state), failing downloads and outages over several phases, up to three key rotations, four key-ID policies of the provider")
 	run.Assume(
 		"keys are honest and served by a trivial in-memory oidc.KeySet (signature trust is C02)",
 		"temporal zones: +-2 s grey band around every boundary; between now and now+offset both exp and iat are grey (the offset makes expiry stricter and iat laxer)",
@@ -552,7 +587,10 @@ func main() {
 		"case-variant twins of registered claims (\"ISS\" next to \"iss\") are probed and histogrammed only, never judged",
 		"a registered member of the wrong JSON type (or null) makes completeness grey; soundness is judged on the literal payload: a present non-text azp / at_hash / nonce can not equal the required text",
 		"a relying party may refuse a provider that publishes another issuer than the configured one (counted); a verifier it hands out is judged by the configured issuer",
-		"remote keys: completeness of a step is demanded only if no download failed during it, the signing key was published, the caller's context was alive and no download was pending when it began (established by goroutine state)",
+		"remote keys: completeness of a call is demanded unless the caller's own context was cancelled, the signing key is not in the served document, the token can not be attributed to one served key (no key ID on one side, several served keys of the family), or a download failed at the endpoint during the phase while the key had not been delivered to this verifier before; no download is pending when a phase begins (goroutine state)",
+		"remote keys: a failing endpoint is no excuse for refusing a token whose key the last document delivered to the verifier contained and the provider still serves; the cancellation of ANOTHER caller is no excuse either (a download that ended with a context error while the endpoint was healthy is the verifier's failure)",
+		"remote keys, grey by decision: a token whose key ID names ANOTHER key in the last document delivered to the verifier (the provider reuses a key ID the verifier still holds) - the library answers from its cache without asking the endpoint again; counted in keyset_excuse",
+		"remote keys: a document delivered while no caller with a live context waited for it counts neither as handed to the verifier nor as withheld",
 	)
 	mand := []string{"claims-compared-with-custom-claims", "accept:grid", "reject:grid"}
 	for _, a := range allAlgs {
@@ -571,10 +609,15 @@ func main() {
 		"reject-decided-by-wrongly-typed:azp", "reject-decided-by-wrongly-typed:at_hash", "reject-decided-by-wrongly-typed:nonce",
 		"reject-decided-by-member-after-wrongly-typed-bystander:azp", "reject-decided-by-member-after-wrongly-typed-bystander:at_hash",
 		"reject-decided-by-member-after-wrongly-typed-bystander:nonce")
+	for _, k := range discKinds {
+		mand = append(mand, "accept:custom-discovery-url:"+k)
+	}
+	mand = append(mand, "provider-naming-its-custom-discovery-location:"+discForeignOrigin, "provider-naming-its-custom-discovery-location:"+discOtherPath)
 	mand = append(mand, ksMandatory...)
 	run.Mandatory(mand...)
 
 	initKeys()
+	initGenKeys()
 	grid := buildGrid()
 	if len(grid)%gridStride == 0 {
 		run.HarnessBug("grid stride divides grid size")
@@ -617,11 +660,13 @@ func main() {
 
 	// part C: key-set histories, one after the other (see keyset.go: the oracle looks at every goroutine of the process)
 	nh := run.N(400, 4000)
+	tC := time.Now()
 	for h := 0; h < nh; h++ {
 		if pi := mon.Catch(func() { runHistory(run, h, false) }); pi != nil {
 			run.HarnessBug(fmt.Sprintf("key-set history %d: panic in the harness: %s at %s", h, pi.Value, pi.Frame))
 		}
 	}
 	run.Extra("keyset_histories", nh)
+	run.Extra("keyset_wall_s", time.Since(tC).Seconds())
 	run.Finish()
 }
